@@ -88,6 +88,9 @@ class SRun:
             r = subscribe(gqlmini.schema_with_stream(), doc, gqlmini.to_py(opts["root_value"]) if opts.get("root_value") else None, variable_values=gqlmini.render_vars(case),
                           field_resolver=gqlmini.make_resolver(calls, self.wrap), type_resolver=gqlmini.make_type_resolver(self.wrap),
                           subscribe_field_resolver=sub_resolver)
+        except Exception as e:  # noqa: BLE001  (subscribe() itself must not raise: reported as a violation by the caller)
+            self.raised = e
+            return
         finally:
             asyncio.events._set_running_loop(None)
         self.init_task = self.loop.create_task(self._init(r))
@@ -206,14 +209,21 @@ def _chunk(jobs):
         rng = random.Random(sd)
         case = gqlmini.gen_subscription_case(sd)
         text = gqlmini.render_doc(case, "subscription")
+        skipped_root = sd % 17 == 5
+        if skipped_root:
+            # a document that validation would reject reaches subscribe() all the same: the only root field is excluded by
+            # @skip / @include, so there is nothing to create a source from - a failure while creating the source
+            d = rng.choice([{"d": "skip", "v": {"lit": True}}, {"d": "include", "v": {"lit": False}}])
+            case["doc"]["sel"][0]["dirs"] = [d]
+            text = gqlmini.render_doc(case, "subscription")
         try:
-            if validate(gqlmini.schema_with_stream(), parse(text)):
+            if not skipped_root and validate(gqlmini.schema_with_stream(), parse(text)):
                 out.append({"invalid": True})
                 continue
         except Exception as e:  # noqa: BLE001
             out.append({"error": f"{type(e).__name__}: {e}", "query": text})
             continue
-        opts = {"creation": rng.choice(["ok"] * 8 + ["raise", "noniter"]), "source_fails": rng.random() < 0.3,
+        opts = {"creation": "skipped-root" if skipped_root else rng.choice(["ok"] * 8 + ["raise", "noniter"]), "source_fails": rng.random() < 0.3,
                 "gate_source": rng.random() < 0.6, "gate_subscribe": rng.random() < 0.3, "p_gate": rng.choice([0.0, 0.3, 0.7]),
                 "aclose_raises": rng.random() < 0.25}
         if rng.random() < 0.5:
